@@ -5,94 +5,151 @@ from . import englib as E
 from . import c04
 
 PROP = "C19"
-THEOREMS = ("C19_tick_rule, C19_ping_not_early, C19_ping_within_two_ivl, C19_dead_peer_closed, C19_live_peer_safe, "
+THEOREMS = ("C19_tick_rule, C19_ping_not_early, C19_ping_within_two_ivl, C19_dead_peer_closed, C19_dead_peer_closed_despite_traffic, "
+            "C19_pong_deadline_from_ping, C19_ping_not_early_after_write, C19_live_peer_safe, "
             "C19_pong_echoes_context, C19_v2_never_pings")
 
 
-def gen_case(rng):
-    v2 = rng.random() < 0.15
-    ivl = rng.choice([None, 1000, 1000, 2000, 5000])
-    tmo = rng.choice([None, 1000, 1000, 3000, 70000])
+STEPS = [0, 0, 1, 249, 250, 251, 499, 500, 500, 501, 750, 999, 1000, 1000, 1001, 1500, 2000, 2999, 3000, 3001, 6000]
+
+
+def gen_case(rng, directed=None):
+    """a timeline on a VIRTUAL clock (cfg.vclock): every inbound frame and every outbound write carries its own time
+    'at' (ms); the harness re-stamps the engine's activity time with it (clock injection through the cfg(rzmq_verif)
+    accessor), tick times are passed to on_tick. Times step by values on, just below and just above the interval /
+    timeout boundaries."""
+    v2 = rng.random() < 0.12
+    ivl = rng.choice([None, 500, 1000, 1000, 2000, 5000])
+    tmo = rng.choice([None, 500, 1000, 1000, 3000, 70000])
     stype, peer = rng.choice([("DEALER", "ROUTER"), ("PULL", "PUSH"), ("SUB", "PUB")])
     server = rng.random() < 0.5
     cfg = E.mk_cfg(server=server, stype=stype, hb_ivl_ms=ivl, hb_timeout_ms=tmo)
+    cfg["vclock"] = 1
     if v2:
         hs = E.greeting_v2(E.V2CODE[peer]) + E.frame([])
     else:
         hs = E.greeting("NULL", 0 if server else 1) + E.ready(peer)
-    inputs = [{"start": 1}, {"net": [E.raw(hs)], "t": 0}]
-    t = 0
-    trace = []
-    for _ in range(rng.randrange(2, 12)):
-        r = rng.random()
-        if r < 0.55:
-            # tick times are k*500+250 ms: at least 250 ms away from every ivl/timeout boundary (multiples of 1000)
-            t += rng.choice([500, 500, 1000, 1500, 3000, 6000])
-            inputs.append({"tick": t + 250})
-            trace.append(("tick", t + 250))
-        elif r < 0.7:
+    t = rng.choice([0, 0, 3, 700])
+    inputs = [{"start": 1}, {"net": [E.raw(hs)], "at": t}]
+    trace = [("hs", t)]
+    script = directed if directed is not None else [None] * rng.randrange(2, 14)
+    for d in script:
+        if d is not None:
+            kind, dt = d
+        else:
+            r = rng.random()
+            kind = ("tick" if r < 0.45 else "wrote" if r < 0.60 else "ping" if r < 0.68 else "pong" if r < 0.78 else
+                    "badcmd" if r < 0.83 else "data" if r < 0.90 else "app" if r < 0.94 else "deadline")
+            dt = rng.choice(STEPS)
+        t += dt
+        if kind == "tick":
+            inputs.append({"tick": t})
+            trace.append(("tick", t))
+        elif kind == "wrote":
+            inputs.append({"wrote": 1, "at": t})
+            trace.append(("wrote", t))
+        elif kind == "ping":
             ctx = [rng.randrange(256) for _ in range(rng.choice([0, 0, 1, 8, 16, 17, 40]))]
-            inputs.append({"net": [E.raw(E.ping(rng.randrange(65536), ctx))], "t": 0})
-            trace.append(("ping", ctx))
-        elif r < 0.82:
-            inputs.append({"net": [E.raw(E.pong([rng.randrange(256) for _ in range(rng.choice([0, 3]))]))], "t": 0})
-            trace.append(("pong",))
-        elif r < 0.9:
+            inputs.append({"net": [E.raw(E.ping(rng.randrange(65536), ctx))], "at": t})
+            trace.append(("ping", t, ctx))
+        elif kind == "pong":
+            inputs.append({"net": [E.raw(E.pong([rng.randrange(256) for _ in range(rng.choice([0, 3]))]))], "at": t})
+            trace.append(("pong", t))
+        elif kind == "badcmd":
             bad = rng.choice([E.frame([4] + E.asc("PING") + [1], cmd=True), E.frame([4] + E.asc("PING"), cmd=True),
                               E.frame([4] + E.asc("PON"), cmd=True), E.frame([4] + E.asc("PING") + [0, 0], cmd=True, more=True)])
-            inputs.append({"net": [E.raw(bad)], "t": 0})
-            trace.append(("badcmd",))
+            inputs.append({"net": [E.raw(bad)], "at": t})
+            trace.append(("badcmd", t))
+        elif kind == "data":
+            inputs.append({"net": [E.raw(E.frame([1, 2, 3]))], "at": t})
+            trace.append(("data", t))
+        elif kind == "app":
+            inputs.append({"app": [{"more": False, "bytes": [7, 7]}]})
+            trace.append(("app", t))
         else:
-            inputs.append({"net": [E.raw(E.frame([1, 2, 3]))], "t": 0})
-            trace.append(("data",))
+            inputs.append({"deadline": 1})
+            trace.append(("deadline", t))
     return {"cfg": cfg, "inputs": inputs, "v2": v2, "ivl": ivl, "tmo": tmo, "trace": trace,
             "kind": "v2" if v2 else "v3", "cuts": [], "msgs": [], "hs_len": len(hs), "group": 0}
 
 
+def directed_cases(rng):
+    """the timelines the property text singles out: traffic (writes, inbound frames) between a PING and its deadline,
+    PONG just before / at / just after the deadline, ticks exactly on the boundaries"""
+    out = []
+    for _ in range(3):
+        out += [
+            [("tick", 1000), ("wrote", 100), ("wrote", 300), ("tick", 400), ("deadline", 0), ("wrote", 100), ("tick", 100), ("tick", 100), ("tick", 500)],
+            [("tick", 999), ("tick", 1), ("data", 200), ("data", 300), ("tick", 499), ("tick", 1), ("tick", 2500)],
+            [("tick", 2000), ("deadline", 0), ("pong", 999), ("tick", 1), ("tick", 999), ("tick", 1)],
+            [("tick", 2000), ("tick", 1000), ("pong", 0)],
+            [("tick", 2000), ("tick", 999), ("pong", 0), ("tick", 1), ("deadline", 0)],
+            [("wrote", 900), ("tick", 100), ("tick", 899), ("tick", 1), ("wrote", 499), ("tick", 500), ("tick", 1)],
+            [("tick", 5000), ("ping", 100), ("badcmd", 100), ("app", 0), ("wrote", 100), ("tick", 200), ("tick", 2500), ("tick", 70000)],
+        ]
+    return [gen_case(rng, d) for d in out]
+
+
 def reference(c):
-    """independent reference of the property: which ticks must ping / time out (activity stamps are ~0 because
-    all network input is fed at harness time ~0; tick times are virtual and far from every boundary)"""
+    """independent reference written from the property text: a PING no sooner than HEARTBEAT_IVL after the last
+    activity (inbound frame or outbound write), a Timeout once HEARTBEAT_TIMEOUT has passed since the PING without a
+    PONG - whatever other traffic there was -, nothing otherwise"""
     exp = []
     waiting = False
     last_ping = None
+    last_act = 0
     closed = False
     for ev in c["trace"]:
+        if ev[0] == "hs":
+            last_act = ev[1]
+            continue
         if closed:
             exp.append(None)
             continue
-        if ev[0] == "tick":
-            now = ev[1]
+        k, now = ev[0], ev[1]
+        if k == "tick":
             if c["v2"]:
                 exp.append("none")
             elif c["tmo"] is not None and waiting and last_ping is not None and now - last_ping >= c["tmo"]:
                 exp.append("timeout")
                 closed = True
-            elif c["ivl"] is not None and not waiting and now >= c["ivl"]:
+            elif c["ivl"] is not None and not waiting and now - last_act >= c["ivl"]:
                 exp.append("ping")
                 waiting = True
                 last_ping = now
             else:
                 exp.append("none")
-        elif ev[0] == "pong":
+        elif k == "wrote":
+            last_act = now
+            exp.append("none")
+        elif k == "app":
+            exp.append("send")
+        elif k == "deadline":
+            exp.append(("deadline", (last_ping + (c["tmo"] if c["tmo"] is not None else 30000)) if waiting else None))
+        elif k == "pong":
+            last_act = now
             if c["v2"]:
                 closed = True
                 exp.append("err")
             else:
                 waiting = False
                 exp.append("none")
-        elif ev[0] == "ping":
+        elif k == "ping":
+            last_act = now
             if c["v2"]:
                 closed = True
                 exp.append("err")
             else:
-                exp.append(("pong", ev[1]))
-        elif ev[0] == "badcmd":
+                exp.append(("pong", ev[2]))
+        elif k == "badcmd":
+            last_act = now
             if c["v2"]:
                 closed = True
                 exp.append("err")
             else:
                 exp.append("none")
         else:
+            last_act = now
             exp.append("deliver")
     return exp
 
@@ -116,25 +173,34 @@ def oracle(c, o):
     calls = split_calls(o["rows"])[2:]   # skip start + handshake
     exp = reference(c)
     from .c03 import digest_py
+    tr = c["trace"][1:]
     for k, (e, out) in enumerate(zip(exp, calls)):
         sends = [r for r in out if r[0] == 1]
         errs = [r for r in out if r[0] == 8]
         if e is None:
-            if out:
+            if out and tr[k][0] != "deadline":
                 return "event %d: closed engine still produced output" % k
         elif e == "none":
             if sends or errs:
-                return "event %d (%s): unexpected heartbeat action %s" % (k, c["trace"][k][0], out)
+                return "event %d (%s): unexpected heartbeat action %s" % (k, tr[k][0], out)
         elif e == "ping":
             if len(sends) != 1 or errs:
-                return "event %d: a PING was due at tick %s but the engine emitted %s" % (k, c["trace"][k][1], out)
+                return "event %d: a PING was due at tick %s but the engine emitted %s" % (k, tr[k][1], out)
             ttl = min(c["tmo"], 65535) if c["tmo"] is not None else 0
             want = E.frame([4] + E.asc("PING") + list(ttl.to_bytes(2, "big")), cmd=True)
             if sends[0][2:] != digest_py(want):
                 return "event %d: PING bytes are not a well-formed PING command with TTL %d" % (k, ttl)
         elif e == "timeout":
             if not any(r == [8, 4] for r in errs):
-                return "event %d: PING outstanding for >= HEARTBEAT_TIMEOUT at tick %s but no Timeout error" % (k, c["trace"][k][1])
+                return "event %d: PING outstanding for >= HEARTBEAT_TIMEOUT at tick %s but no Timeout error" % (k, tr[k][1])
+        elif e == "send":
+            if len(sends) != 1 or errs:
+                return "event %d: application send did not produce exactly one Send" % k
+        elif isinstance(e, tuple) and e[0] == "deadline":
+            want = [91, 1, e[1]] if e[1] is not None else [91, 0, 0]
+            if out != [want]:
+                return ("event %d: get_pong_deadline() = %s, but the property anchors the deadline at the PING: expected %s"
+                        % (k, out, want))
         elif e == "err":
             if not errs:
                 return "event %d: COMMAND frame on a ZMTP/2.0 session was not rejected" % k
@@ -152,12 +218,14 @@ def main(argv):
     tier, seed = C.tier_and_seed(argv)
     res = C.Result(PROP, tier, seed)
     res.rule = ("engines with (HEARTBEAT_IVL, HEARTBEAT_TIMEOUT) in {unset,1s,2s,5s}x{unset,1s,3s,70s}, v3 and v2 sessions, after an honest "
-                "handshake a timeline of 2..11 events from {tick at virtual time k*500+250 ms, PING with 0..40-byte context, PONG, "
-                "malformed PING/PONG, data frame}; network input is fed at harness time ~0 (Instant::now() inside the engine cannot be "
-                "injected), tick times are virtual; non-trivial = at least one heartbeat action (PING, PONG, Timeout); distinct by JSON")
+                "handshake a timeline of 2..13 events on a VIRTUAL clock from {tick, outbound write (record_activity), PING with 0..40-byte "
+                "context, PONG, malformed PING/PONG, data frame, application send, get_pong_deadline query}, time steps on / just below / "
+                "just above the interval and timeout boundaries (0,1,249..251,499..501,999..1001,...), plus 21 directed timelines (traffic "
+                "between PING and deadline, PONG just before / at / after the deadline); the engine's Instant::now() stamps are replaced by "
+                "the scripted time through a cfg(rzmq_verif) accessor; non-trivial = at least one heartbeat action; distinct by JSON")
     C.proof_stage(res, PROP, ["theories/Corr/EngCorr.vo"])
     rng = random.Random(seed)
-    cases = [gen_case(rng) for _ in range(400 if tier == "quick" else 5000)]
+    cases = directed_cases(rng) + [gen_case(rng) for _ in range(400 if tier == "quick" else 5000)]
     for c in cases:
         res.count("kind:" + c["kind"])
         res.count("ivl:%s tmo:%s" % (c["ivl"], c["tmo"]))
@@ -168,7 +236,8 @@ def main(argv):
                          nontrivial=lambda c, o: any(r[0] in (1, 8) for call in split_calls(o["rows"])[2:] for r in call),
                          theorems_note=THEOREMS, strip=c04.strip)
     return res.finish(assumptions=[
-        "activity stamps inside the real engine come from Instant::now(); the correspondence only uses timelines whose tick times are "
-        ">= 250 ms away from every decision boundary, with all network input at harness time ~0",
+        "activity stamps inside the real engine come from Instant::now(): the harness detects each stamp (sentinel) and replaces it "
+        "by the scripted virtual time through verif_set_last_activity (clock injection); the real actor's calls to record_activity() "
+        "after writes are represented by 'wrote' events",
         "tokio interval regularity (ticks at most HEARTBEAT_IVL apart) is a premise of C19_ping_within_two_ivl",
         "PING/PONG under an encrypted framer is C18's subject; the io_uring backend's tick source is C20's"])
